@@ -55,4 +55,4 @@ def run(ctx):
         "disk, dump the tree (handles, attributes, cookies, content digests), recover a second server from a raw-image copy and restart the first cleanly, compare the three dumps",
         ["the cache-protocol model is sequential (one open transaction); concurrent transactions hold disjoint inode sets by locking (C03/C06)",
          "private fields of cache.Cache, dcache.Dcache and alloc.Alloc are read by reflection in the harness"],
-        pending=["alloc_coherent as a theorem over the allocation-list discipline (M8 alloctxn part)"])
+        pending=[])
